@@ -630,11 +630,9 @@ func (r *replicateChannelManager) AddPartition(ctx context.Context, dbInfo *mode
 
 func (r *replicateChannelManager) StopReadCollection(ctx context.Context, info *pb.CollectionInfo) error {
 	for _, channel := range info.GetPhysicalChannelNames() {
-		handler := r.stopReadChannel(channel, info.ID)
-		if handler == nil {
-			continue
-		}
-		handler.Close()
+		// only the stream of this collection is stopped (RemoveCollection closes it): the handler is shared
+		// with the other collections on the channel, which may belong to other tasks
+		r.stopReadChannel(channel, info.ID)
 	}
 	r.collectionLock.Lock()
 	closeChan, ok := r.replicateCollections[info.ID]
